@@ -48,10 +48,11 @@ Contract(
     requires=[("config", lambda c: valid_config(c, c.a.config))],
     ensures=[
         ("image", lambda c: implies(c.returns, c.ret == jcd(dump_env_of(c), c.a.obj)), ("C15", "C20", "C07")),
+        ("raises_exceptions_only", lambda c: implies(c.raised, c.raises(Exception)), ("C15", "C02")),
         ("builtin_shape", lambda c: implies(z3.And(c.returns, z3.Not(handled(c.old(c.a.config, "serialize_handlers"), c.a.obj))),
                                             plain_shape(c.a.obj, c.ret)), ("C15",)),
     ],
-    modifies=[Ghost("call_log")],
+    modifies=[Ghost("xlate_log")],
     props=("C15", "C20", "C07"),
 )
 
@@ -64,6 +65,6 @@ Contract(
         ("image", lambda c: implies(c.returns, c.ret == jcl(eff_classes(c.a.classes), c.a.obj)),
          ("C15", "C07")),
     ],
-    modifies=[Ghost("imports"), Ghost("constructs"), Ghost("call_log"), Param("obj")],
+    modifies=[Ghost("imports"), Ghost("constructs"), Ghost("xlate_log"), Param("obj")],
     props=("C15", "C07", "C08"),
 )
